@@ -329,6 +329,10 @@ def tuple_get(string, count=None):
     if isinstance(string, (list, tuple)):
         # An odml style tuple that has been parsed already, e.g. a stored value.
         res = [str(x).strip() for x in string]
+        if any(";" in x for x in res):
+            # The text form of the tuple could not be read back.
+            msg = "Tuple value items must not contain ';': '%s'" % string
+            raise ValueError(msg)
     else:
         string = string.strip()
         if not (string.startswith("(") and string.endswith(")")):
